@@ -97,3 +97,14 @@ PROPS.update({
    rule="an evconnlistener on a simulated listening socket with scripted clients connecting in bursts of 0-20, enable/disable/set_cb(NULL)/free from top level and from inside the callback, scripted accept4 errors (EAGAIN, EINTR, ECONNABORTED, EMFILE, ENFILE, ENOMEM), all option flags; ledger: every fd handed out by accept4 is delivered exactly once with the client's address or closed by the library, nothing is accepted while disabled, the error callback never runs for retriable errors, the listening fd is closed on free iff LEV_OPT_CLOSE_ON_FREE; non-trivial when clients connected; distinct = distinct trace hashes among non-trivial runs",
    components=dict(real=REAL_BEV, simulated=SIM_NET, stubbed=[]), assumptions=ASSUME_S, expected_probes=["listener-disabled-inside-callback", "listener-freed-inside-callback", "listener-callback-cleared"]),
 })
+def multi(*stages):
+    """several harness stages for one property; each (harness, quick, thorough, quick_tlimit, thorough_tlimit)"""
+    def f(tier):
+        return [dict(name=h, harness=h, count=q if tier == "quick" else t, tlimit=ql if tier == "quick" else tl) for (h, q, t, ql, tl) in stages]
+    return f
+PROPS.update({
+ "C10": dict(level="exploration", stages=multi(("h_core", 30000, 500000, 14, 170), ("h_bev", 5000, 80000, 16, 200), ("h_evbuf", 6000, 100000, 8, 100), ("h_io", 15000, 250000, 8, 100)),
+   rule="the release-heavy mixes of four harnesses: events, once-events and finalizers (event_finalize / event_free_finalize, freed at top level, from inside their own and other callbacks, with the base freed while finalizers and once-events are pending); bufferevents (socket, pair, 1-3 stacked filters) freed mid-stream, from inside read/event callbacks and with deferred callbacks queued; evbuffers with callbacks freed from inside callbacks; listeners freed from inside the accept callback; signal and I/O events freed with the base. Counters: finalizer runs per object (== 1), callbacks after release (== 0), once-callbacks (<= 1, 0 after base free), filter-context frees (== 1); after event_base_free the allocator ledger and the fd table must be back at the run's baseline, and at worker exit (libevent_global_shutdown) the ledger must be empty; ASan for use after release. non-trivial when an object was released while pending/active, from inside a callback, or with a finalizer; distinct = distinct trace hashes among non-trivial runs",
+   components=dict(real=REAL_CORE + REAL_BEV + REAL_BUF, simulated=SIM_COMMON + SIM_NET, stubbed=[]), assumptions=ASSUME_R + ASSUME_S,
+   expected_probes=["finalize", "free-inside-own-callback", "base-free-with-once-pending", "base-free-with-finalizer-pending", "free-inside-read-callback", "free-inside-event-callback"]),
+})
